@@ -11,4 +11,5 @@ CONSTANT PoolQ <- PoolFour
 CONSTANT PoolT <- PoolFour
 INVARIANT StrengthIsDegreeOn01
 INVARIANT DirectedIsUndirectedOnSym
+INVARIANT BigClassesCoincide
 CHECK_DEADLOCK FALSE
